@@ -157,7 +157,10 @@ def build(scn, trace, fault=None, script=None):
 
                 self.f = f
                 self.received = 0
-                self._lock = threading.Lock()  # models own locks, sessions, open files: they cannot be deep-copied or pickled
+                if scn.get("np_seed", 0) % 2 == 0:
+                    # models own locks, sessions, open files: they cannot be deep-copied or pickled (every other case, so that
+                    # a library that silently works on a deep copy of a copyable object is still seen through `received`)
+                    self._lock = threading.Lock()
 
             def __call__(self, x):
                 self.received += 1
